@@ -563,7 +563,7 @@ def finish_check(pid, seed, tier, parts, wall, sizes):
     req = getattr(mod, "REQUIRED_REACH", [])
     if req and runs >= 0.5 * sum(SIZES[pid]["quick"]) and not os.environ.get("VERIF_FILTER"):
         missing = [k for k in req if stats.get(k, 0) + probes.get(k, 0) == 0]
-        if missing:
+        if missing and not verified:     # (a batch that found violations is failing anyway: runs end early)
             print("HARNESS-ERROR: reach guard: never fired in this batch: %s" % ", ".join(missing))
             harness_error = True
     if harness_error:
